@@ -197,4 +197,15 @@ PROPS = {
         'rule': 'one evaluation = one (array, element size, selector, entry point[, pivot sequence]) sort or one (array, probe) search; non-trivial = arrays with at least two elements; all enumerated cases are distinct',
         'assumptions': ['length <= 7 (quick) / 9 (thorough), 4 key values', 'gcc 12, shipped flags + ASan and -O0 + ASan'],
     },
+    'C17': {
+        'level': 'exploration',
+        'engine': 'inputx',
+        'claim': 'Complete enumeration: (a) cstl_hash_mul / cstl_hash_div are called for every key below 2^28 (thorough 2^32) and for one key per single-precision value in [2^24, 2^64] with its neighbours, against table sizes {16, 1000003, SIZE_MAX} (+ 14 boundary sizes on a stride), for every single-precision value of the table size in [1, 2^64] (quick: every value up to 2^27, every 64th above) with the smallest m that rounds to it against the keys whose fraction is largest / smallest (found by this run among all keys below 2^24), and on the full product k < 2^20 x m <= 64 (thorough k < 2^23 x m <= 1024); every result must be below m. (b) a caller-supplied hash function returns m, m+1 or SIZE_MAX at its j-th call, for every j that insert / find(present) / find(absent) / erase(member) / erase(non-member) / rehash / foreach / resize / shrink_to_fit make in a settled, a grow-pending and a shrink-pending table: the operation must end in abort() with no further hash call, and any access outside the bucket array is an AddressSanitizer report.',
+        'note': 'The reduction to one key per single-precision value above 2^32 is valid while the implementation reads the key through a float; keys below 2^28 / 2^32 are enumerated one by one without any reduction. Built with the shipped flags (float evaluation method is part of the question) + ASan, and -O0 + ASan.',
+        'technique': 'exhaustive enumeration of keys and table sizes on the single-precision grid + fault enumeration over hash-call ordinals per entry point and table state',
+        'jobs': [{'world': 'hashrange', 'src': 'worlds/hashrange_world.c', 'lib': [], 'unity': True, 'flavours': {'quick': ['rel'], 'thorough': ['rel', 'dbg']}}],
+        'rule': 'one evaluation = one call of a built-in hash function checked against m, or one (table state, entry point, call ordinal, bad value) case; non-trivial = distinct keys / table sizes enumerated and bad-hash cases in which the bad value was actually returned',
+        'assumptions': ['x86-64 SSE single-precision arithmetic (FLT_EVAL_METHOD 0), gcc 12'],
+        'deadline': {'quick': 300, 'thorough': 3000},
+    },
 }
